@@ -22,6 +22,7 @@ META = {
     'stubs': ['hash recording (C19 device) for "equal terms hash equal"'],
     'assumptions': ['denotation oracle: own recursive expansion into (rational factor, exponent vector over base elements)'],
 }
+META['bounds'].append('user units scaled by plain ints / Decimal / Fraction (10 shapes, 34 pairs); derived units of a reference-less type (9 shapes x 4 partners; value-level obligations only, see known finding term:same-sort-key-order)')
 
 
 def setup(mode):
